@@ -2,11 +2,17 @@
    Proofs.v and followed by Print Assumptions.
 
    Histories [hs] are lists over {start, acquire, release, complete, abort,
-   watchdog.execute} of ANY length over any number of operations and resources
-   ([res] = registered resources with their allow_preemption flag, [w] = the
-   watchdog configuration incl. the victim strategy).  [grun current w (ginit res) hs]
-   is the pair (controller state, ghost set of currently blocked (waiter, resource)
-   pairs) after the history; [rec_edges] are the triples (waiter, blocking,
+   watchdog.execute} ([XHop]) interleaved with the calls that change what a later
+   acquisition returns without being one: PriorityInheritance.check_and_boost /
+   restore_priority / clear_all, an assignment to OperationContext.priority, an
+   assignment to ResourceLock.allow_preemption ([xop] in Model.v) - of ANY length
+   over any number of operations and resources ([res] = registered resources with
+   their initial allow_preemption flag, [w] = the watchdog configuration incl. the
+   victim strategy).  [fst (xrun current w (xinit res) hs)] is the pair (controller
+   state, ghost set of currently blocked (waiter, resource) pairs) after the
+   history (its second component is PriorityInheritance.active_boosts);
+   histories over the basic alphabet are the special case [map XHop hs]
+   (c15_basic_histories_embed); [rec_edges] are the triples (waiter, blocking,
    resource) recorded in DependencyGraph.edges, [ref_edges] the reference
    wait-for relation  { (W, owner(r), r) | (W, r) currently blocked }  of the
    READING in Model.v. *)
@@ -19,20 +25,20 @@ Open Scope Z_scope.
    in every reachable state *)
 Theorem c15_edges_exact :
   forall res w hs,
-    let gs := grun current w (ginit res) hs in
+    let gs := fst (xrun current w (xinit res) hs) in
     forall wt b r, In (wt, b, r) (rec_edges (fst gs)) <-> In (wt, b, r) (ref_edges gs).
-Proof. exact edges_exact_proof. Qed.
+Proof. exact x_edges_exact_proof. Qed.
 Print Assumptions c15_edges_exact.
 
 (* what "currently blocked" means in every reachable state: the waiter is a
    live operation, the resource is owned by ANOTHER live operation *)
 Theorem c15_blocked_are_live :
   forall res w hs,
-    let gs := grun current w (ginit res) hs in
+    let gs := fst (xrun current w (xinit res) hs) in
     forall wt r, In (wt, r) (snd gs) ->
       In wt (active (fst gs)) /\
       exists b, owner (fst gs) r = Some b /\ b <> wt /\ In b (active (fst gs)).
-Proof. exact blocked_live_proof. Qed.
+Proof. exact x_blocked_live_proof. Qed.
 Print Assumptions c15_blocked_are_live.
 
 (* the DFS never runs out of its fuel (|nodes| + 1), on any graph *)
@@ -59,14 +65,14 @@ Print Assumptions c15_cycle_complete.
    really wait on a resource owned by another live operation *)
 Theorem c15_deadlock_iff_reference_cycle :
   forall res w hs,
-    let gs := grun current w (ginit res) hs in
+    let gs := fst (xrun current w (xinit res) hs) in
     (detect_cycle (edges (fst gs)) <> None <-> exists c, is_rcycle (ref_graph_edge gs) c) /\
     (forall c, detect_cycle (edges (fst gs)) = Some c ->
        is_rcycle (ref_graph_edge gs) c /\ NoDup c /\
        forall m, In m c ->
          In m (active (fst gs)) /\
          exists r b, In (m, r) (snd gs) /\ owner (fst gs) r = Some b /\ b <> m /\ In b (active (fst gs))).
-Proof. exact deadlock_iff_reference_proof. Qed.
+Proof. exact x_deadlock_iff_reference_proof. Qed.
 Print Assumptions c15_deadlock_iff_reference_cycle.
 
 (* Watchdog.execute on a reported deadlock c = l1 ++ v :: l2: the victim v is a
@@ -74,10 +80,11 @@ Print Assumptions c15_deadlock_iff_reference_cycle.
    "priority", created_at for "oldest"; the first member for any other
    strategy), it is among the terminated operations, afterwards it is not
    active, owns nothing, c is no longer a cycle of the recorded edges, and the
-   edges are again exactly the reference relation ([Inv]). *)
+   edges are again exactly the reference relation ([Inv]).  The keys are the
+   priorities as they are at that moment (after any inheritance boost). *)
 Theorem c15_victim_minimal_and_released :
   forall res w hs c,
-    let gs := grun current w (ginit res) hs in
+    let gs := fst (xrun current w (xinit res) hs) in
     detect_cycle (edges (fst gs)) = Some c ->
     let s := fst gs in
     let gs' := fst (gstep current w gs HWatchdog) in
@@ -90,5 +97,55 @@ Theorem c15_victim_minimal_and_released :
       In v (map fst (snd (wd_execute current w s))) /\
       ~ In v (active (fst gs')) /\ (forall r, owner (fst gs') r <> Some v) /\
       ~ is_cycle (edges (fst gs')) c /\ Inv gs'.
-Proof. exact victim_reachable_proof. Qed.
+Proof. exact x_victim_reachable_proof. Qed.
 Print Assumptions c15_victim_minimal_and_released.
+
+(* ---- priorities that change during the history ---- *)
+
+(* nobody is ever recorded as waiting for itself *)
+Theorem c15_no_self_wait :
+  forall res w hs,
+    let gs := fst (xrun current w (xinit res) hs) in
+    forall wt r, ~ In (wt, wt, r) (rec_edges (fst gs)).
+Proof. exact x_no_self_wait_proof. Qed.
+Print Assumptions c15_no_self_wait.
+
+(* an acquisition that returns ACQUIRED, REENTRANT or PREEMPTED (return codes 0, 2, 3) ends
+   the operation's wait for that resource, in the reference relation and in the recorded
+   edges - also when the operation had been BLOCKED on it before and comes back with a
+   higher (inherited) priority *)
+Theorem c15_obtained_not_waiting :
+  forall res w hs o r,
+    let xs := xrun current w (xinit res) hs in
+    let xs' := fst (xstep current w xs (XHop (HAcquire o r))) in
+    let ret := snd (xstep current w xs (XHop (HAcquire o r))) in
+    (ret = [0] \/ ret = [2] \/ ret = [3]) ->
+    ~ In (o, r) (snd (fst xs')) /\ forall b, ~ In (o, b, r) (rec_edges (fst (fst xs'))).
+Proof. exact x_obtained_not_waiting_proof. Qed.
+Print Assumptions c15_obtained_not_waiting.
+
+(* a call that is not an acquisition, release, completion, abort or watchdog run (priority
+   inheritance, its undoing, a priority or allow_preemption assignment) changes neither the
+   recorded nor the reference relation nor the verdict of check_deadlock - in ANY state *)
+Theorem c15_priority_calls_keep_relation :
+  forall fl w xs a,
+    prio_call a ->
+    let xs' := fst (xstep fl w xs a) in
+    rec_edges (fst (fst xs')) = rec_edges (fst (fst xs)) /\
+    ref_edges (fst xs') = ref_edges (fst xs) /\
+    detect_cycle (edges (fst (fst xs'))) = detect_cycle (edges (fst (fst xs))) /\
+    active (fst (fst xs')) = active (fst (fst xs)) /\
+    (forall r, owner (fst (fst xs')) r = owner (fst (fst xs)) r).
+Proof. exact prio_call_keeps_relation_proof. Qed.
+Print Assumptions c15_priority_calls_keep_relation.
+
+(* get_blocking_chain / check_and_boost never run out of the model's fuel (|edges| + 1) *)
+Theorem c15_boost_fuel_suffices : forall s bs, check_and_boost s bs <> None.
+Proof. exact boost_fuel_proof. Qed.
+Print Assumptions c15_boost_fuel_suffices.
+
+(* histories over the basic alphabet are exactly the extended histories without priority calls *)
+Theorem c15_basic_histories_embed :
+  forall fl w hs gs bs, xrun fl w (gs, bs) (map XHop hs) = (grun fl w gs hs, bs).
+Proof. exact xrun_hops_proof. Qed.
+Print Assumptions c15_basic_histories_embed.
